@@ -211,6 +211,7 @@ fn eval_bin0(mode: &str, b: &[u8]) -> Out {
                     "rejdup" => if dup_is_global_flag(b) { "F17-dup-elements-modifiable|a duplicated global PSBT_ELEMENTS_GLOBAL_TX_MODIFIABLE pair is accepted (assigned without an is_none() test); the last value wins".to_string() } else { "dup-accepted|an encoding with a duplicated key is accepted".to_string() },
                     "rejmissing" => "missing-accepted|an encoding without a mandatory field is accepted".to_string(),
                     "rejlen" => "F18-commitment-length-unchecked|a commitment / generator value whose length is not 33 bytes is accepted (repaired by 838e50c: returned)".to_string(),
+                    "rejlimit" => "limit-accepted|a value beyond a length / count / depth limit of its type is accepted".to_string(),
                     "rejtrail" => "trailing-accepted|a valid encoding followed by extra bytes is accepted".to_string(),
                     "rejcount" => "count-accepted|an encoding whose declared counts differ from the number of maps is accepted".to_string(),
                     _ => "preimage-accepted|an encoding with an invalid hash preimage is accepted".to_string(),
@@ -592,7 +593,7 @@ pub fn gen(rng: &mut ChaCha20Rng, n: usize, thorough: bool) -> Vec<Case> {
     // (ii) the repository's vectors: PSET literals of src/pset/mod.rs; transactions turned into PSETs
     for v in repo_hex_vectors() {
         if v.len() > 30_000 { continue; }
-        if v.starts_with(b"pset\xff") { valid.push(v.clone()); out.push(mk("bin", &v, vec!["src:repo-vector".into()], true)); out.push(Case { text: format!("{} {}", head("text", &v), BASE64_STANDARD.encode(&v)), tags: vec!["src:repo-vector".into(), "mode:text".into()], nontrivial: true }); }
+        if v.starts_with(b"pset\xff") { if deserialize::<Pset>(&v).is_ok() { valid.push(v.clone()); }   /* only decodable vectors seed the must-reject mutations */ out.push(mk("bin", &v, vec!["src:repo-vector".into()], true)); out.push(Case { text: format!("{} {}", head("text", &v), BASE64_STANDARD.encode(&v)), tags: vec!["src:repo-vector".into(), "mode:text".into()], nontrivial: true }); }
         else if let Ok(tx) = deserialize::<elements::Transaction>(&v) { let b = serialize(&Pset::from_tx(tx)); if b.len() < 30_000 { valid.push(b.clone()); out.push(mk("bin", &b, vec!["src:repo-tx-from_tx".into()], true)); } }
     }
     // (i-a) every optional field alone (exhaustive)
@@ -669,6 +670,64 @@ pub fn gen(rng: &mut ChaCha20Rng, n: usize, thorough: bool) -> Vec<Case> {
     // F18 probes: a valid generator / commitment followed by one more byte
     for _ in 0..2 { let mut g = rgenerator(rng).serialize().to_vec(); g.push(rng.gen()); out.push(Case { text: format!("{} {}", head("shortcomm", &g), hex(&g)), tags: vec!["src:targeted-commitment-length".into(), "mode:shortcomm".into()], nontrivial: true });
                     let mut c = rcommitment(rng).serialize().to_vec(); c.push(rng.gen()); out.push(Case { text: format!("{} {}", head("shortcomm", &c), hex(&c)), tags: vec!["src:targeted-commitment-length".into(), "mode:shortcomm".into()], nontrivial: true }); }
+    // limits of the foreign value types: each value AT its limit must round-trip (`built`: the bytes are the encoding of a well-formed
+    // PSET, written by hand where a library constructor would go through the decoder under test) and one step beyond must be rejected
+    {
+        // the encoding of `p` with the first pair of map `mi` whose type is `ty` (and, for 0xfc, whose key data starts with `kpre`) rewritten by `f`
+        let respell = |p: &Pset, mi: usize, ty: u8, kpre: &[u8], f: &dyn Fn(&mut RPair)| -> Option<Vec<u8>> {
+            let (mut maps, clean) = parse_maps(&serialize(p))?; if !clean { return None; }
+            let q = maps.get_mut(mi)?.iter_mut().find(|q| q.0 == ty && q.1.starts_with(kpre))?; f(q); Some(unparse(&maps))
+        };
+        // (1) ControlBlock (tap_scripts key): 33 + 32k bytes with k = 0, 1, 127, 128 merkle-branch nodes; 129 is beyond TAPROOT_CONTROL_MAX_NODE_COUNT
+        for k in [0usize, 1, 127, 128, 129] {
+            let mut p = base(rng, 1, 1);
+            p.inputs_mut()[0].tap_scripts.insert(ControlBlock::from_slice(&{ let mut b = vec![0xc0u8]; b.extend_from_slice(&rxonly(rng).serialize()); b }).unwrap(), (Script::from(vec![0x51]), rleafver(rng)));
+            let branch = rbytes(rng, 32 * k);
+            if let Some(b) = respell(&p, 1, 0x15, &[], &|q: &mut RPair| { q.1.extend_from_slice(&branch); }) {
+                out.push(mk(if k <= 128 { "built" } else { "rejlimit" }, &b, vec!["src:value-limit".into(), "limit:control-block-nodes".into(), format!("at:{}", k)], k <= 128));
+            }
+        }
+        // (2) TapTree: a leaf at depth 127 / 128 (caterpillar trees through the builder); a depth byte of 129
+        for d in [127usize, 128] {
+            let mut b = TaprootBuilder::new();
+            for j in 1..=d { b = b.add_leaf_with_ver(j, Script::from(vec![(j % 251) as u8]), LeafVersion::from_u8(0xc0).unwrap()).unwrap(); }
+            b = b.add_leaf_with_ver(d, Script::new(), LeafVersion::from_u8(0xc0).unwrap()).unwrap();
+            let mut p = base(rng, 0, 1); p.outputs_mut()[0].tap_tree = Some(TapTree::from_inner(b).unwrap());
+            out.push(mk("built", &serialize(&p), vec!["src:value-limit".into(), "limit:taptree-depth".into(), format!("at:{}", d)], true));
+        }
+        { let mut p = base(rng, 0, 1); p.outputs_mut()[0].tap_tree = Some(taptree_of(rng, &[0]));
+          if let Some(b) = respell(&p, 1, 0x06, &[], &|q: &mut RPair| { q.2 = vec![129, 0xc0, 1, 0x51]; }) { out.push(mk("rejlimit", &b, vec!["src:value-limit".into(), "limit:taptree-depth".into(), "at:129".into()], false)); } }
+        // (3) SurjectionProof: 256 inputs is the maximum (rsurjproof draws it); 257 is beyond
+        { let mut p = base(rng, 0, 1); set_output(&mut p.outputs_mut()[0], 12, rng, &mut vec![]);
+          let mut v = vec![1u8, 1]; let mut bm = vec![0u8; 33]; bm[0] = 1; v.extend_from_slice(&bm); v.extend(rbytes(rng, 64));
+          if let Some(b) = respell(&p, 1, 0xfc, b"\x04pset\x05", &|q: &mut RPair| { q.2 = v.clone(); }) { out.push(mk("rejlimit", &b, vec!["src:value-limit".into(), "limit:surjection-inputs".into(), "at:257".into()], false)); } }
+        if thorough {
+            // (4) Vec<Vec<u8>> (witnesses): MAX_VEC_SIZE / size_of::<Vec<u8>>() elements is the maximum (the model needs ~80 s per case: thorough tier only)
+            let cap_vv = elements::encode::MAX_VEC_SIZE / std::mem::size_of::<Vec<u8>>();
+            for (k, ok) in [(cap_vv, true), (cap_vv + 1, false)] {
+                let mut p = base(rng, 1, 0); p.inputs_mut()[0].pegin_witness = Some(vec![vec![]; k]);
+                out.push(mk(if ok { "built" } else { "rejlimit" }, &serialize(&p), vec!["src:value-limit".into(), "limit:witness-elements".into(), format!("at:{}", k)], ok));
+            }
+            // (5) Vec<TxOut> of a non_witness_utxo: MAX_VEC_SIZE / size_of::<TxOut>() outputs
+            let cap_o = elements::encode::MAX_VEC_SIZE / std::mem::size_of::<elements::TxOut>();
+            for (k, ok) in [(cap_o, true), (cap_o + 1, false)] {
+                let mut t = rtx(rng, Feat { big: false, no_witness: true }, &mut vec![]); t.output = vec![elements::TxOut::default(); k];
+                let mut p = base(rng, 1, 0); p.inputs_mut()[0].non_witness_utxo = Some(t);
+                out.push(mk(if ok { "built" } else { "rejlimit" }, &serialize(&p), vec!["src:value-limit".into(), "limit:tx-outputs".into(), format!("at:{}", k)], ok));
+            }
+            // (6) the number of input maps: 10 000 is the maximum
+            for (k, ok) in [(10_000usize, true), (10_001, false)] {
+                let mut p = Pset::new_v2(); let op = OutPoint::new(Txid::from_byte_array(r32(rng)), 1);
+                for _ in 0..k { p.add_input(Input::from_prevout(op)); }
+                out.push(mk(if ok { "built" } else { "rejlimit" }, &serialize(&p), vec!["src:value-limit".into(), "limit:input-maps".into(), format!("at:{}", k)], ok));
+            }
+            // (7) a value of exactly MAX_VEC_SIZE bytes, and one more
+            for (k, ok) in [(elements::encode::MAX_VEC_SIZE, true), (elements::encode::MAX_VEC_SIZE + 1, false)] {
+                let mut p = base(rng, 0, 1); p.outputs_mut()[0].unknown.insert(raw::Key { type_value: 0x70, key: vec![] }, vec![0x5a; k]);
+                out.push(mk(if ok { "built" } else { "rejlimit" }, &serialize(&p), vec!["src:value-limit".into(), "limit:value-bytes".into(), format!("at:{}", k)], ok));
+            }
+        }
+    }
     // trailing data: a valid encoding followed by 1..4 bytes (zero, non-zero, a further 0x00 separator, the start of another map),
     // through deserialize and through from_str; must be rejected by both
     for k in 0..(n / 8).max(12) {
